@@ -1,7 +1,8 @@
 (* Run/JudgeC01.v — case type and judge for the C01 correspondence run: all five simplifiers on one curve x
    configuration.  Threshold RDP is judged against Model/Rdp.v, the fixed-size family against Model/RdpFixed.v. *)
 From Coq Require Import ZArith List Arith Bool PrimFloat.
-From Knee Require Import Num NumFloat NpList Model.Mapping Model.Rdp Model.RdpFixed Run.RdpTables.
+From Knee Require Import Num NumFloat NpList Model.Mapping Model.Rdp Model.RdpCost Model.RdpFixed Run.RdpTables.
+From Knee Require Export Model.RdpCost.
 Import ListNotations.
 
 (* evaluation.compute_global_cost(points, S, cost) with a fresh cache, keyed by the index list S *)
@@ -23,12 +24,13 @@ Definition r_out (r : res) : out_t := match r with Res o _ => o end.
 Definition r_iters (r : res) : list nat := match r with Res _ i => i end.
 
 Inductive case :=
-  (* n points; configuration: r2 (cost is Metrics.r2), threshold t, rdp_fixed length k, min_points m, threshold list ts of
+  (* the n points pts; configuration: cost metric mt (for smape / rpd / rmspe / R2 threshold RDP's segment cost is derived from
+     pts, Model/RdpCost.v, and the table ct of what rdp.compute_cost_coef returns is compared with it; for rmsle ct is the oracle), threshold t, rdp_fixed length k, min_points m, threshold list ts of
      min_point_rdp; dflt = the configuration is min_point_rdp's hard-wired one (shortest / smape / segment), so the
      tables apply to it.  kmax: the fixed-size family's oracle tables cover the chain members S_2 .. S_kmax (kmax = n for small
      curves; on the large-n stratum the parameters are chosen so that no simplifier goes beyond S_kmax — if one does, the
      model reports a missing entry, code 4).  dt / ct / pt / gt: distance, segment cost, order priority and global cost primitives. *)
-  | CAll (n : nat) (r2 : bool) (t : float) (k m kmax : nat) (ts : list float) (dflt : bool)
+  | CAll (n : nat) (mt : metric) (pts : list (float * float)) (t : float) (k m kmax : nat) (ts : list float) (dflt : bool)
          (dt : dtab) (ct : ctab) (pt : ctab) (gt : gtab)
          (r_rdp r_fixed r_grdp r_mp r_min : res).
 
@@ -42,8 +44,9 @@ Definition red_of (o : out_t) : list nat := match o with Some (r, _) => r | None
 Definition sum_nat (l : list nat) : nat := fold_right Nat.add 0 l.
 
 Section Models.
-  Variables (n kmax : nat) (r2 : bool) (t : float) (dt : dtab) (ct : ctab) (pt : ctab) (gt : gtab).
-  Definition m_rdp := @rdp FloatNum (dist_of dt) (cost_from ct) r2 t n.
+  Variables (n kmax : nat) (mt : metric) (pts : list (float * float)) (t : float) (dt : dtab) (ct : ctab) (pt : ctab) (gt : gtab).
+  Let r2 : bool := metric_is_r2 mt.
+  Definition m_rdp := @rdp FloatNum (dist_of dt) (segcost_of mt pts ct) r2 t n.
   Definition m_fixed (k : nat) : out_t := @rdp_fixed FloatNum n f_eps (dist_of dt) (cost_from pt) n k.
   Definition m_grdp : out_t := @grdp FloatNum n f_eps (dist_of dt) (cost_from pt) (gcost_of gt) r2 t n.
   Definition m_mp (m : nat) : out_t := @mp_grdp FloatNum n f_eps (dist_of dt) (cost_from pt) (gcost_of gt) r2 t n m.
@@ -55,7 +58,7 @@ Section Models.
     match m_rdp with
     | None => 1%Z
     | Some (red, rem, vis) =>
-        let '(ck, dk) := @keys_needed FloatNum (cost_from ct) r2 t vis in
+        let '(ck, dk) := @keys_needed FloatNum (segcost_of mt pts ct) r2 t vis in
         if negb (forallb (has ct) ck && forallb (has dt) dk) then 4%Z
         else if out_eqb (Some (red, rem)) (r_out r) && nat_list_eqb (r_iters r) [length vis] then 0%Z else 1%Z
     end.
@@ -83,30 +86,33 @@ Fixpoint first_nonzero (l : list (nat * nat)) : nat :=
 (* result code = 100 * agree + holds.
    agree: 0 every simplifier: model output (and iteration count) = implementation's; 1 differs; 4 oracle entry missing;
           5 a priority is NaN (Python's sort on NaN keys is not modelled: fixed family judged on the predicate only)
-   holds: C01_code of rdp (1-5), rdp_fixed (11-15), grdp (21-25), mp_grdp (31-35), min_point_rdp (41-45):
+   holds: C01_code of rdp (1-5; 6 = the library's composite segment cost differs bit-wise from the cost derived from the points), rdp_fixed (11-15), grdp (21-25), mp_grdp (31-35), min_point_rdp (41-45):
           x1 did not return a pair of non-negative integer arrays (raised / timed out / negative or non-integral entries),
           x2 not well-formed, x3 removed table, x4 retained + dropped <> n, x5 iteration bound *)
 Definition judge (c : case) : Z :=
   match c with
-  | CAll n r2 t k m kmax ts dflt dt ct pt gt r_rdp r_fixed r_grdp r_mp r_min =>
-      let dom := (2 <=? n) && negb (@Rdp.curved FloatNum r2 t (@trivial_cost FloatNum r2)) && negb (f_isnan t)
+  | CAll n mt pts t k m kmax ts dflt dt ct pt gt r_rdp r_fixed r_grdp r_mp r_min =>
+      let r2 := metric_is_r2 mt in
+      let dom := (2 <=? n) && (length pts =? n) && negb (@Rdp.curved FloatNum r2 t (@trivial_cost FloatNum r2)) && negb (f_isnan t)
                  && forallb (fun x => negb (f_isnan x)) ts && shape_ok dt in
       if negb dom then 600%Z else
       let ordered := forallb (fun e => negb (f_isnan (snd e))) pt in
       let a_fixed :=
         if negb (fixed_keys_ok n kmax dt pt gt true
                  && within_chain n kmax dt pt (m_fixed n dt pt k)
-                 && within_chain n kmax dt pt (m_grdp n r2 t dt pt gt)
-                 && within_chain n kmax dt pt (m_mp n r2 t dt pt gt m)
+                 && within_chain n kmax dt pt (m_grdp n mt t dt pt gt)
+                 && within_chain n kmax dt pt (m_mp n mt t dt pt gt m)
                  && (negb dflt || within_chain n kmax dt pt (m_min n dt pt gt ts m))) then [4%Z]
         else if negb ordered then [5%Z]
         else [agree_out (m_fixed n dt pt k) r_fixed true;
-              agree_out (m_grdp n r2 t dt pt gt) r_grdp true;
-              agree_out (m_mp n r2 t dt pt gt m) r_mp true;
+              agree_out (m_grdp n mt t dt pt gt) r_grdp true;
+              agree_out (m_mp n mt t dt pt gt m) r_mp true;
               if dflt then agree_out (m_min n dt pt gt ts m) r_min false else 0%Z] in
-      let agree := worst (agree_rdp n r2 t dt ct r_rdp :: a_fixed) in
+      let agree := worst (agree_rdp n mt pts t dt ct r_rdp :: a_fixed) in
       let holds := first_nonzero
-        [(0, C01_code n (2 * n - 3) 1 (r_out r_rdp) (r_iters r_rdp));
+        [(0, match C01_code n (2 * n - 3) 1 (r_out r_rdp) (r_iters r_rdp) with
+             | O => if cost_match mt pts ct then 0 else 6
+             | c => c end);
          (10, C01_code n (n - 1) 1 (r_out r_fixed) (r_iters r_fixed));
          (20, C01_code n (n - 1) 1 (r_out r_grdp) (r_iters r_grdp));
          (30, C01_code n (n - 1) 2 (r_out r_mp) (r_iters r_mp));
@@ -117,7 +123,7 @@ Definition judge (c : case) : Z :=
 (* the models' own outputs, for replay files *)
 Definition show (c : case) :=
   match c with
-  | CAll n r2 t k m kmax ts dflt dt ct pt gt _ _ _ _ _ =>
-      (m_rdp n r2 t dt ct, m_fixed n dt pt k, m_grdp n r2 t dt pt gt, m_mp n r2 t dt pt gt m,
+  | CAll n mt pts t k m kmax ts dflt dt ct pt gt _ _ _ _ _ =>
+      (m_rdp n mt pts t dt ct, m_fixed n dt pt k, m_grdp n mt t dt pt gt, m_mp n mt t dt pt gt m,
        if dflt then m_min n dt pt gt ts m else None)
   end.
